@@ -59,11 +59,44 @@ CLAIM = {
              "primitive eval / flatten / format and import (csv, camt053, viseca) is OBSERVED on the real binary: every "
              "generated input x command is run in N fresh processes (quick 6, thorough 24) and stdout, stderr and exit "
              "status must be byte-identical. A source probe lists every iteration over a HashMap/HashSet in core/src and "
-             "cli/src and fails the check when a site is new, changed, or lost its recorded sort."),
+             "cli/src and fails the check when a site is new, changed, or lost its recorded sort. "
+             "COMMAND TEXT: Okane.CmdText.run / runX / runEval (Model/CmdText.lean) are executable functions from the "
+             "loader's entry list (and the text of the price db, and the parsed expression) to what `okane accounts`, `balance "
+             "[--start/--end]`, `register [ACCOUNT]`, `balance -X C --now D [--historical] [--start/--end] [--price-db F]` and "
+             "`primitive eval --date D [-X C] [--price-db F] -f FILE EXPR` leave behind: the standard output, or the failing "
+             "entry with the title of the diagnostic (the Rust #[error] texts of BookKeepError / EvalError / BalanceError), or "
+             "the `failed to query` text (QueryError / ConversionError), or `the price db does not parse`. Proved "
+             "(Lemmas/CmdTextEq.lean, Props/C13.lean section CommandText): these functions ARE the command models of the "
+             "theorems above (cmdText, balanceLines, registerLines, accountsScanCmd, Query.balance / Query.eval behind "
+             "balanceXLines / evalLine) instantiated with the byte order of names and the real printers, under EVERY layout "
+             "history of every hash map at entry and posting granularity (C13_balance_text_run, C13_register_text_run, "
+             "C13_accounts_text_run, C13_balance_exchange_text_run, C13_eval_text_run), so the recorded statements C13_balance "
+             "/ C13_register / C13_balance_exchange / C13_eval hold of the real text (C13_balance_text, ...), the real messages "
+             "of related errors are equal (bkErrMsg_meq, C13_process_error_message), and the price-db step of process "
+             "(ledger events, load_price_db registering the file's commodities, build) maps related accumulators to related "
+             "stores and the same repository (C13_price_db_load). The driver runs exactly these functions on the tree the "
+             "real parser produced and the check compares the result with stdout / stderr / exit status of the real binary "
+             "for every generated (ledger, command): byte for byte outside numerals; a numeral is compared by exact value "
+             "(by 10^-18 relative, or as a rounding-boundary case, for converted amounts). NOT compared: the scale (trailing "
+             "zeros) and the sign of zero of a printed decimal - the report layer of the model is exact rationals - and the "
+             "annotated source snippet below the title of a diagnostic (C14's subject); `format`, `import`, `primitive "
+             "flatten/format` have no text model here."),
     "note": ("the command-level theorems compose the validated models (process, Ledger::balance / eval, price repository, "
              "report printing) through glue definitions written from cli/src/cmd.rs and core/src/report.rs "
              "(processScr / processScr2, cmdText, registerReport, accountsStep, balanceXLines, evalLine, balanceXOut, "
-             "evalOut); the glue itself is not exercised by a differential stream; "
+             "evalOut); the glue is exercised by the stream `cmdtext-model-vs-binary` through the executable twins of "
+             "Model/CmdText.lean (proved equal to cmdText / balanceLines / registerLines / accountsScanCmd for every layout "
+             "history; for -X and eval the twins xFinish / evalFinish load the price db the way report::process does and are "
+             "proved layout-independent themselves, and equal to balanceXOut / evalOut up to the wording of messages when there "
+             "is no price db). Two definitions of Lemmas files turned out NOT to be the binary's text and are superseded by the "
+             "twins (the theorems about them stay true, they are about a different function): bkErrText (Model/InlineDisplay) "
+             "is an abstract wording, not the Rust #[error] text (twin: CmdText.bkErrMsg, with bkErrMsg_meq); balanceXLines / "
+             "evalLine (Lemmas/C13CmdQuery) resolve the -X commodity in the store of the ledger only, whereas load_price_db "
+             "registers the price db's commodities first, so `-X HUB` with HUB only in the price db converts in the binary and "
+             "is `commodity not found` in balanceXCmd (twin: CmdText.loadRepo + xFinish; hand-written case B-alias). "
+             "For -X / eval the pop order of BinaryHeap among equal distances is a parameter (cfg.pick): the driver prints the "
+             "text under the simulated heap order first (Drv/C09 cfgHeap) and under five other pop orders, the check accepts "
+             "any and counts which; so far the heap order always matched. "
              "process-level determinism is observed, not proved; the only normalisation is env_logger's wall-clock timestamp in "
              "front of a log line on stderr; `--now` is always passed (without it `balance -X` reads the wall clock); the "
              "iteration-site probe is a regex heuristic; known open nondeterminism: F14 (rewrite-rule field order) and F32 "
@@ -107,6 +140,20 @@ THEOREMS = [NS + t for t in [
     "C13_balance_exchange_cmd_fine", "C13_eval_cmd_fine", "processScr2_meq", "loopSyntaxScr_meq",
     "stepEntryScr_meq", "relayout2_rev", "cmd_det2", "balanceXOut_eq", "evalOut_eq", "cmdText_eq",
     "processScr_id", "loopSyntaxScr_id",
+    # the text the binary prints (Model/CmdText.lean = what `drv c13 cmd` runs; Lemmas/CmdTextEq.lean; Props/C13.lean, section CommandText)
+    "keyOrder_leS", "showAmount_meq", "bkErrMsg_meq", "balanceLines_eq", "registerLines_eq", "accountsScan_eq",
+    "accountsLines_eq", "finish_eq", "stepEntryScr_id", "processScr2_id", "textScr_det", "finish_process_eq",
+    "run_balance_layouts", "run_register_layouts", "run_accounts_layouts", "balanceText_det", "registerText_det",
+    "cmdText_errIndex", "run_balance_cmd", "run_register_cmd", "run_accounts_cmd",
+    "C13_balance_text", "C13_balance_text_run", "C13_register_text", "C13_register_text_run", "C13_accounts_text_run",
+    "C13_balance_cmd_run", "C13_register_cmd_run", "C13_process_error_message",
+    "canon_meq", "eventsOf_meq", "storeAfter_meq", "loadRepo_meq", "xFinish_eq", "xText_det", "runX_layouts",
+    "xFinish_balanceXOut", "C13_balance_exchange_text", "C13_balance_exchange_text_run", "C13_price_db_load",
+    "C13_balance_exchange_cmd_run",
+    "evalFinish_eq", "evalText_det", "runEval_layouts", "evalFinish_evalOut", "C13_eval_text", "C13_eval_text_run",
+    "C13_eval_cmd_run",
+    "accountsScr_wf", "accountsLines_strict", "C13_accounts_text_strict", "sortByKey_keys_strict", "balanceLines_rows",
+    "balanceRows_strict", "C13_balance_text_strict",
 ]]
 
 SITES_FILE = os.path.join(VERIF, "corpus", "C13", "iteration_sites.json")
@@ -508,12 +555,15 @@ def gen_ledger_case(rng, tier, idx):
     add("accounts", "main.ledger")
     add("balance", "main.ledger")
     add("register", "main.ledger")
-    add("register", "main.ledger", led.multi_account)
     other = rng.choice(led.accounts)
     if led.acct_aliases and rng.random() < 0.3:
         other = rng.choice(sorted(led.acct_aliases))         # an alias is not an account of the register filter
     elif rng.random() < 0.15:
         other = "No:Such Account"
+    if rng.random() < 0.5 or not led.dates:
+        add("register", "main.ledger", led.multi_account)
+    else:
+        add("register", "--start", rng.choice(led.dates), "main.ledger", other)    # RegisterCmd ignores the date range
     add("primitive", "flatten", "main.ledger")
     add("primitive", "format", "main.ledger")
     for t in targets:
@@ -527,7 +577,6 @@ def gen_ledger_case(rng, tier, idx):
             s, e = e, s
         add("balance", "--start", s, "--end", e, "--now", now, "main.ledger")
         add("balance", "--end" if rng.random() < 0.5 else "--start", rng.choice(led.dates), "main.ledger")
-        add("register", "--start", s, "main.ledger", other)    # RegisterCmd ignores the date range
         add("balance", "-X", targets[0], "--now", now, "--start", s, "--price-db", "prices.db", "main.ledger")
         add("balance", "-X", targets[-1], "--historical", "--now", now, "--end", e, "--price-db", "prices.db", "main.ledger")
     cs = rng.sample(led.comms, min(len(led.comms), rng.randint(2, 5)))
@@ -939,7 +988,7 @@ def rerun_cmd(d, argv):
         d, OKANE, " ".join("'%s'" % a.replace("'", "'\\''") for a in argv))
 
 
-def shrink_ledger(chk, root, case, k, n=24, budget=40):
+def shrink_ledger(chk, root, case, k, n=12, budget=16):
     """drops entries of main.ledger while the difference still shows (each trial: n fresh processes)."""
     if "main.ledger" not in case["files"]:
         return case
@@ -1020,6 +1069,77 @@ def load_corpus():
     return cases
 
 
+ALIAS_LEDGER = """commodity USD
+    alias $
+    format 1,000.00 USD
+
+account Equity:Opening
+    alias EO
+
+account Assets:Unused
+    alias AU
+
+2024/01/01 open
+    Assets:Bank      100 USD
+    Assets:Bank      200.5 $
+    EO
+
+2024/01/02 food
+    Expenses:Food    10.255 USD
+    Assets:Bank
+
+2024/01/03 * transfer
+    Assets:Bank      -5.00 USD
+    Assets:Cash       5.00 USD
+
+2024/01/04 * back
+    Assets:Cash      -5 USD
+    Assets:Bank
+"""
+
+
+def builtin_cases():
+    """hand-written inputs for the command-text stream: what is special about the glue of each command —
+    `okane accounts` never sees the `account` directives (an alias written in a posting is listed as an account, a
+    declared account without postings is not), book-keeping resolves aliases, the register keeps zero entries in its
+    running total, a date-range balance is rounded to the declared precision, an account emptied to zero is dropped
+    from the balance but a zero commodity inside a multi-commodity account is dropped too"""
+    cmds = [["accounts", "main.ledger"], ["balance", "main.ledger"], ["register", "main.ledger"],
+            ["register", "main.ledger", "Assets:Bank"], ["register", "main.ledger", "EO"],
+            ["register", "main.ledger", "Equity:Opening"], ["register", "main.ledger", "Assets:Unused"],
+            ["balance", "--start", "2024-01-02", "main.ledger"], ["balance", "--end", "2024-01-02", "main.ledger"],
+            ["balance", "--start", "2024-01-03", "--end", "2024-01-04", "main.ledger"],
+            ["balance", "--start", "2025-01-01", "main.ledger"],
+            # a commodity that only the price db mentions is a valid -X target (load_price_db registers it before
+            # to_conversion looks it up); without the price db it is not; an alias names its canonical commodity
+            ["balance", "-X", "HA", "--now", "2024-12-31", "--price-db", "prices.db", "main.ledger"],
+            ["balance", "-X", "HA", "--now", "2024-12-31", "main.ledger"],
+            ["balance", "-X", "$", "--now", "2024-12-31", "main.ledger"],
+            ["balance", "-X", "EUR", "--historical", "--now", "2024-12-31", "--price-db", "prices.db", "main.ledger"],
+            ["balance", "-X", "JPY", "--now", "2024-12-31", "--price-db", "prices.db", "main.ledger"],
+            ["balance", "-X", "HA", "--now", "2023-06-30", "--price-db", "prices.db", "main.ledger"],
+            ["balance", "-X", "HA", "--historical", "--now", "2024-12-31", "--start", "2024-01-02", "--price-db", "prices.db", "main.ledger"],
+            # primitive eval: aliases resolve, an unknown commodity / a pure number / a division by zero / a text that
+            # does not parse are query errors, the -X commodity is looked up before the text is parsed
+            ["primitive", "eval", "--date", "2024-01-05", "-f", "main.ledger", "1 USD + 2.50 $"],
+            ["primitive", "eval", "--date", "2024-01-05", "-f", "main.ledger", "1 NOPE"],
+            ["primitive", "eval", "--date", "2024-01-05", "-f", "main.ledger", "1", "+"],
+            ["primitive", "eval", "--date", "2024-01-05", "-X", "HA", "--price-db", "prices.db", "-f", "main.ledger", "3 USD"],
+            ["primitive", "eval", "--date", "2024-01-05", "-X", "NOPE", "-f", "main.ledger", "1", "+"],
+            ["primitive", "eval", "--date", "2024-01-05", "-f", "main.ledger", "1 USD / 0"],
+            ["primitive", "eval", "--date", "2024-01-05", "-f", "main.ledger", "1 + 2"],
+            ["primitive", "eval", "--date", "2024-01-05", "-f", "main.ledger", "0"],
+            ["primitive", "eval", "--date", "2024-01-05", "-f", "main.ledger", "1 USD - 1.00 USD"],
+            ["primitive", "eval", "--date", "2023-01-05", "-X", "EUR", "--price-db", "prices.db", "-f", "main.ledger", "3 USD"],
+            # a price db that does not parse (a line that is not `P ...`; a last line without its line end): process fails
+            ["balance", "-X", "HA", "--now", "2024-12-31", "--price-db", "bad.db", "main.ledger"],
+            ["primitive", "eval", "--date", "2024-01-05", "--price-db", "unterminated.db", "-f", "main.ledger", "3 USD"]]
+    return [{"id": "B-alias", "kind": "ledger", "files": {"main.ledger": ALIAS_LEDGER, "prices.db": "P 2024/01/01 USD 2 HA\nP 2024/01/02 EUR 1.1 USD\n",
+                       "bad.db": "P 2024/01/01 USD 2 HA\nX oops\n", "unterminated.db": "P 2024/01/01 USD 2 HA"},
+             "cmds": cmds, "features": ["builtin"],
+             "nontrivial": True, "class": [], "accounts": ["Assets:Bank", "Assets:Cash", "Equity:Opening", "Expenses:Food"]}]
+
+
 def process_results(chk, root, results, known_seen, shrink=True):
     """oracle: every (input, command) must have behaved identically in all its processes."""
     display_jobs = []
@@ -1047,7 +1167,14 @@ def process_results(chk, root, results, known_seen, shrink=True):
                 known_seen.setdefault(c, []).append((case, k, kv))
             chk.count("known-class-difference:" + "+".join(cls))
             continue
-        report_difference(chk, root, case, k, kv, shrink)
+        # each shrinking trial costs N fresh processes: shrink the first two differences only, and stop writing
+        # replays once the report is full (a non-deterministic build shows hundreds of differences)
+        chk.n_differences = getattr(chk, "n_differences", 0) + 1
+        if chk.n_differences <= 20:
+            report_difference(chk, root, case, k, kv, shrink and chk.n_differences <= 2)
+        else:
+            chk.oracle_failures += 1
+            chk.count("further differences (not written out)")
     return display_jobs
 
 
@@ -1088,7 +1215,7 @@ def display_correspondence(chk, jobs):
 # command text: the model of what `balance` / `register` / `accounts` print (Model/CmdText.lean, proved in
 # Lemmas/CmdTextEq.lean to be the command models of the C13 theorems) against the real binary's stdout / stderr / status
 
-VALUE_OPTS = {"--start", "--begin", "--end", "--now", "--price-db", "-X", "--exchange"}
+VALUE_OPTS = {"--start", "--begin", "--end", "--now", "--price-db", "-X", "--exchange", "--date", "-f", "--file"}
 ANSI = re.compile(r"\x1b\[[0-9;]*m")
 NUM_OPEN, NUM_CLOSE, MORE = "\x01", "\x02", "\x03"
 NUMERAL = re.compile(r"-?[0-9]+(?:\.[0-9]+)?")
@@ -1103,13 +1230,21 @@ def date_sx(s):
     return "((d %d %d %d))" % (int(m.group(1)), int(m.group(2)), int(m.group(3)))
 
 
-def cmd_sexp(case, argv):
-    """the command as the model driver takes it, or None when the command line is not one the text model covers
-    (conversion, price db, other sub-commands).  -> (sexp, ledger file)"""
-    if argv[0] not in ("accounts", "balance", "register"):
+def eval_expr_text(terms):
+    """the string `EvalCmd::run` hands to `Ledger::eval`"""
+    return "(" + "".join(t + " " for t in terms) + ")"
+
+
+def cmd_sexp(case, argv, expr_trees=None):
+    """the command as the model driver takes it, or None when the command line is not one the text model covers (other
+    sub-commands, conversion without --now).  `expr_trees`: expression text -> tree printed by `hx c13 expr` (None: the
+    caller only wants to know whether the command is covered, and which expression it evaluates).
+    -> (sexp, ledger file)"""
+    is_eval = argv[:2] == ["primitive", "eval"]
+    if argv[0] not in ("accounts", "balance", "register") and not is_eval:
         return None
     opts, pos = {}, []
-    i = 1
+    i = 2 if is_eval else 1
     while i < len(argv):
         a = argv[i]
         if a in VALUE_OPTS:
@@ -1125,9 +1260,38 @@ def cmd_sexp(case, argv):
         else:
             pos.append(a)
             i += 1
-    if any(k in opts for k in ("-X", "--exchange", "--price-db", "--historical")):
-        return None
+    target = opts.get("-X", opts.get("--exchange"))
+    if is_eval:
+        src = opts.get("-f", opts.get("--file"))
+        date = date_sx(opts.get("--date"))
+        if src not in case["files"] or date in (None, "()") or "--historical" in opts:
+            return None
+        db = "()"
+        if "--price-db" in opts:
+            if opts["--price-db"] not in case["files"]:
+                return None
+            db = "(%s)" % enc(case["files"][opts["--price-db"]])
+        text = eval_expr_text(pos)
+        tree = "?" if expr_trees is None else expr_trees.get(text)
+        if tree is None or tree.startswith("(panic"):
+            return None
+        return "(eval %s %s %s %s)" % (tree, date[1:-1], "(%s)" % enc(target) if target is not None else "()", db), src, text
     if not pos or pos[0] not in case["files"]:
+        return None
+    if target is not None:
+        # conversion: only `balance`, and only with `--now` (without it the wall clock is an input)
+        if argv[0] != "balance" or len(pos) != 1 or "--now" not in opts:
+            return None
+        now, s, e = date_sx(opts["--now"]), date_sx(opts.get("--start", opts.get("--begin"))), date_sx(opts.get("--end"))
+        if now is None or now == "()" or s is None or e is None:
+            return None
+        db = "()"
+        if "--price-db" in opts:
+            if opts["--price-db"] not in case["files"]:
+                return None
+            db = "(%s)" % enc(case["files"][opts["--price-db"]])
+        return "(balancex %s %s %s %s %s %s)" % (enc(target), "H" if opts.get("--historical") else "U", now[1:-1], s, e, db), pos[0]
+    if any(k in opts for k in ("--price-db", "--historical")):
         return None
     if argv[0] == "accounts":
         return ("(accounts)", pos[0]) if len(pos) == 1 and not opts else None
@@ -1142,40 +1306,60 @@ def cmd_sexp(case, argv):
     return ("(register %s)" % enc(pos[1]) if len(pos) == 2 else "(register)"), pos[0]
 
 
-def match_text(model, actual):
+class Tally:
+    """numerals met while matching one text"""
+    def __init__(self):
+        self.holes = self.nonmin = self.inexact = self.boundary = 0
+
+
+def match_text(model, actual, tally, approx=False, unrounded=None):
     """matches the binary's text against the model's text: byte for byte outside the numeral holes, by exact value at
-    a hole (the decimal numeral the binary printed there).  -> (ok, detail, holes, non_minimal_numerals)"""
+    a hole (the decimal numeral the binary printed there).  With `approx` (converted amounts: rust_decimal rounds a
+    quotient / product to 28 significant digits, the model is exact) a numeral may differ from the model's value by
+    10^-18 relative.  -> (ok, detail)"""
     from fractions import Fraction
-    pos = 0
-    holes = nonmin = 0
     parts = model.split(NUM_OPEN)
     lit = parts[0]
     if not actual.startswith(lit):
-        return False, "text differs at offset %d" % common_prefix(lit, actual), 0, 0
+        return False, "text differs at offset %d" % common_prefix(lit, actual)
     pos = len(lit)
-    for p in parts[1:]:
+    raw = None
+    if unrounded is not None:
+        raw = [Fraction(*map(int, x.split(NUM_CLOSE, 1)[0].split("/"))) for x in unrounded.split(NUM_OPEN)[1:]]
+        if len(raw) != len(parts) - 1:
+            raw = None
+    for hi, p in enumerate(parts[1:]):
         if NUM_CLOSE not in p:
-            return False, "malformed model text", holes, nonmin
+            return False, "malformed model text"
         val, lit = p.split(NUM_CLOSE, 1)
         m = NUMERAL.match(actual, pos)
         if not m:
-            return False, "no numeral at offset %d (%r)" % (pos, actual[pos:pos + 30]), holes, nonmin
+            return False, "no numeral at offset %d (%r)" % (pos, actual[pos:pos + 30])
         num, den = val.split("/")
         want = Fraction(int(num), int(den))
         got = Fraction(m.group(0))
         if want != got:
-            return False, "numeral at offset %d is %s, model value %s" % (pos, m.group(0), want), holes, nonmin
-        holes += 1
+            digits = len(m.group(0).split(".")[1]) if "." in m.group(0) else 0
+            if approx and abs(want - got) <= max(Fraction(1), abs(want)) / 10 ** 18:
+                tally.inexact += 1
+            elif approx and raw is not None and abs(want - got) == Fraction(1, 10 ** digits) and \
+                    abs(got - raw[hi]) <= Fraction(1, 2 * 10 ** digits) + max(Fraction(1), abs(raw[hi])) / 10 ** 18:
+                # the exact value sits on a rounding boundary of the declared precision: the binary rounded a
+                # 28-digit approximation of it the other way (a limitation of exact arithmetic, not of the glue)
+                tally.boundary += 1
+            else:
+                return False, "numeral at offset %d is %s, model value %s (= %.12g)" % (pos, m.group(0), want, float(want))
+        tally.holes += 1
         txt = m.group(0)
-        if ("." in txt and txt.endswith("0")) or txt.startswith("-0") and got == 0:
-            nonmin += 1
+        if ("." in txt and txt.endswith("0")) or (txt.startswith("-") and got == 0):
+            tally.nonmin += 1
         pos = m.end()
         if not actual.startswith(lit, pos):
-            return False, "text differs at offset %d" % (pos + common_prefix(lit, actual[pos:])), holes, nonmin
+            return False, "text differs at offset %d" % (pos + common_prefix(lit, actual[pos:]))
         pos += len(lit)
     if pos != len(actual):
-        return False, "binary printed more text from offset %d (%r)" % (pos, actual[pos:pos + 40]), holes, nonmin
-    return True, "", holes, nonmin
+        return False, "binary printed more text from offset %d (%r)" % (pos, actual[pos:pos + 40])
+    return True, ""
 
 
 def common_prefix(a, b):
@@ -1186,56 +1370,109 @@ def common_prefix(a, b):
 
 
 def show_model_text(t):
-    return t.replace(NUM_OPEN, "⟪").replace(NUM_CLOSE, "⟫").replace(MORE, "…")
+    return t.replace(NUM_OPEN, "\u27ea").replace(NUM_CLOSE, "\u27eb").replace(MORE, "\u2026")
 
 
-def cmdtext_compare(model_res, kv, impl_idx):
-    """one (input, command): the model's result against what every fresh process did.  -> (agree, what, holes, nonmin)"""
+def compare_book_error(idx, msg, st, out, err, impl_idx, tally):
+    """a book-keeping error of the model against `failed to report / Caused by error: <title>`"""
+    if st != "exit:1":
+        return False, "model: book-keeping error at entry %s (%s); binary: %s" % (idx, show_model_text(msg), st)
+    if out:
+        return False, "model: nothing on stdout before the error; binary printed %r" % out[:200]
+    lines = err.split("\n")
+    if len(lines) < 2 or lines[0] != "failed to report" or not lines[1].startswith("Caused by error: "):
+        return False, "stderr does not start with `failed to report / Caused by error: `: %r" % err[:200]
+    title = lines[1][len("Caused by error: "):]
+    if msg.endswith(MORE):
+        # the binary's message continues with data the model's error value does not carry (no numerals in these)
+        ok, why = title.startswith(msg[:-1]), "the title does not start with the model's text"
+    else:
+        ok, why = match_text(msg, title, tally)
+    if not ok:
+        return False, "error message: %s; binary %r, model %r" % (why, title[:300], show_model_text(msg)[:300])
+    if impl_idx is not None and str(impl_idx) != idx:
+        return False, "model fails at entry %s, the binary's diagnostic points into entry %s" % (idx, impl_idx)
+    return True, ""
+
+
+def compare_one(model_res, st, out, err, impl_idx, tally, approx=False):
+    """one result of the model against what the binary did.  -> (agree, what)"""
+    if model_res.startswith("ok:"):
+        if st != "exit:0":
+            return False, "model: success; binary: %s, stderr %r" % (st, err[:200])
+        if [l for l in err.split("\n") if l and not (approx and l.startswith("[<ts> "))]:
+            # (a price of a commodity in itself is logged by insert_price, with a time stamp the harness masks)
+            return False, "model: success with empty stderr; binary wrote %r to stderr" % err[:200]
+        text, _, unrounded = model_res[3:].partition("^")
+        ok, why = match_text(dec(text), out, tally, approx, dec(unrounded) if unrounded and unrounded != "~" else None)
+        return ok, "stdout: " + why
+    if model_res.startswith("err:"):
+        _, idx, msg = model_res.split(":", 2)
+        return compare_book_error(idx, dec(msg), st, out, err, impl_idx, tally)
+    if model_res.startswith("xerr:book:"):
+        _, _, idx, msg = model_res.split(":", 3)
+        return compare_book_error(idx, dec(msg), st, out, err, impl_idx, tally)
+    if model_res.startswith("xerr:query:"):
+        msg = dec(model_res.split(":", 2)[2])
+        if st != "exit:1" or out:
+            return False, "model: query error (%s); binary: %s, stdout %r" % (show_model_text(msg), st, out[:100])
+        lines = [l for l in err.split("\n") if not l.startswith("[<ts> ")]       # log lines (self rate) come first
+        if len(lines) < 2 or lines[0] != "failed to query" or not lines[1].startswith("Caused by "):
+            return False, "stderr is not `failed to query / Caused by ..`: %r" % err[:200]
+        got = "\n".join(lines[1:]).rstrip("\n")[len("Caused by "):]
+        if msg.endswith(MORE):
+            ok, why = got.startswith(msg[:-1]), "the text does not start with the model's"
+        else:
+            ok, why = match_text(msg, got, tally, approx)
+        return ok, "query error text: %s; binary %r, model %r" % (why, got[:300], show_model_text(msg)[:300])
+    if model_res == "xerr:db":
+        ok = st == "exit:1" and not out and err.startswith(
+            "failed to report\nCaused by failed to load the Price DB\nCaused by failed to parse price DB entry")
+        return ok, "model: the price db does not parse; binary: %s, stderr %r" % (st, err[:200])
+    if model_res.startswith("panic:"):
+        return st == "exit:101", "model: panic site %s; binary: %s" % (dec(model_res[6:]), st)
+    return False, "model result %r" % model_res[:80]
+
+
+def cmdtext_compare(model_res, kv, impl_idx, approx=False):
+    """one (input, command): the model's result(s) against what every fresh process did.  A converting balance comes
+    with alternatives (`|`): the heap-faithful pop order first, then the other orders the model allows.
+    -> (agree, what, tally, index of the alternative that matched)"""
     st = kv.get("st")
     out = dec(kv.get("out", "~"))
     err = ANSI.sub("", dec(kv.get("err", "~")))
-    if model_res.startswith("ok:"):
-        if st != "exit:0":
-            return False, "model: success; binary: %s, stderr %r" % (st, err[:200]), 0, 0
-        if err:
-            return False, "model: success with empty stderr; binary wrote %r to stderr" % err[:200], 0, 0
-        ok, why, holes, nonmin = match_text(dec(model_res[3:]), out)
-        return ok, "stdout: " + why, holes, nonmin
-    if model_res.startswith("err:"):
-        _, idx, msg = model_res.split(":", 2)
-        msg = dec(msg)
-        if st != "exit:1":
-            return False, "model: book-keeping error at entry %s (%s); binary: %s" % (idx, show_model_text(msg), st), 0, 0
-        if out:
-            return False, "model: nothing on stdout before the error; binary printed %r" % out[:200], 0, 0
-        lines = err.split("\n")
-        if len(lines) < 2 or lines[0] != "failed to report" or not lines[1].startswith("Caused by error: "):
-            return False, "stderr does not start with `failed to report / Caused by error: `: %r" % err[:200], 0, 0
-        title = lines[1][len("Caused by error: "):]
-        if msg.endswith(MORE):
-            # the binary's message continues with data the model's error value does not carry (no numerals in these)
-            ok, why, holes, nonmin = title.startswith(msg[:-1]), "the title does not start with the model's text", 0, 0
-        else:
-            ok, why, holes, nonmin = match_text(msg, title)
-        if not ok:
-            return False, "error message: %s; binary %r, model %r" % (why, title[:300], show_model_text(msg)[:300]), holes, nonmin
-        if impl_idx is not None and str(impl_idx) != idx:
-            return False, "model fails at entry %s, the binary's diagnostic points into entry %s" % (idx, impl_idx), holes, nonmin
-        return True, "", holes, nonmin
-    if model_res.startswith("panic:"):
-        ok = st == "exit:101"
-        return ok, "model: panic site %s; binary: %s" % (dec(model_res[6:]), st), 0, 0
-    return False, "model result %r" % model_res[:80], 0, 0
+    alts = model_res.split("|")
+    first = None
+    for i, a in enumerate(alts):
+        tally = Tally()
+        agree, what = compare_one(a, st, out, err, impl_idx, tally, approx)
+        if agree:
+            return True, "", tally, i
+        if first is None:
+            first = (what, tally)
+    return False, first[0], first[1], 0
 
 
 def cmdtext_stream(chk, root, results, name):
     """results: [(case, k, kv)] of the process-level stream.  Every (ledger input, covered command) whose N processes
     agreed is compared with the model's text."""
     by_case = {}
+    texts = []
+    for case, k, kv in results:
+        if case.get("kind") == "ledger" and kv.get("same") == "1":
+            cs = cmd_sexp(case, case["cmds"][k])
+            if cs is not None and len(cs) == 3 and cs[2] not in texts:
+                texts.append(cs[2])
+    expr_trees = {}
+    if texts:
+        for t, rec in zip(texts, run_sharded(HX, ["c13", "expr"], ["x%d %s" % (i, enc(t)) for i, t in enumerate(texts)], shards=4)):
+            if " expr=" not in rec:
+                raise BuildError("hx c13 expr: unexpected record %r" % rec[:200])
+            expr_trees[t] = rec.split(" expr=", 1)[1]
     for case, k, kv in results:
         if case.get("kind") != "ledger" or kv.get("same") != "1":
             continue
-        cs = cmd_sexp(case, case["cmds"][k])
+        cs = cmd_sexp(case, case["cmds"][k], expr_trees)
         if cs is None:
             continue
         by_case.setdefault(case["id"], (case, {}))[1].setdefault(cs[1], []).append((k, kv, cs[0]))
@@ -1285,12 +1522,24 @@ def cmdtext_stream(chk, root, results, name):
             n += 1
             chk.evaluations += 1
             chk.traces += 1
-            agree, what, holes, nonmin = cmdtext_compare(mres, kv, impl_idx)
-            kind = mres.split(":", 1)[0]
-            chk.count("cmdtext:%s:%s" % (argv[0] + ("-range" if "--start" in argv or "--end" in argv else "") +
-                                          ("-account" if argv[0] == "register" and sx != "(register)" else ""), kind))
-            chk.count("cmdtext:numerals-matched-by-value", holes)
-            chk.count("cmdtext:numerals-with-trailing-zeros-or-negative-zero", nonmin)
+            is_x = sx.startswith("(balancex") or sx.startswith("(eval")
+            agree, what, tally, alt = cmdtext_compare(mres, kv, impl_idx, approx=is_x)
+            kind = mres.split("|")[alt].split(":", 1)[0]
+            conv = "-X" in argv or "--exchange" in argv
+            label = ("eval" if sx.startswith("(eval") else argv[0]) + ("-X" if conv else "") + \
+                ("-historical" if "--historical" in argv else "") + ("-db" if "--price-db" in argv else "") + \
+                ("-range" if "--start" in argv or "--end" in argv else "") + \
+                ("-account" if argv[0] == "register" and sx != "(register)" else "")
+            chk.count("cmdtext:%s:%s" % (label, kind))
+            chk.count("cmdtext:numerals-matched-by-value", tally.holes)
+            chk.count("cmdtext:numerals-with-trailing-zeros-or-negative-zero", tally.nonmin)
+            if is_x:
+                chk.count("cmdtext:converted-numerals-within-1e-18", tally.inexact)
+                chk.count("cmdtext:converted-numerals-on-a-rounding-boundary", tally.boundary)
+                if agree and alt > 0:
+                    chk.count("cmdtext:-X matched by another pop/neighbour order than the heap's")
+                if "|" in mres:
+                    chk.count("cmdtext:-X result depends on the pop/neighbour order (model)")
             if agree:
                 continue
             chk.disagreements += 1
@@ -1298,7 +1547,7 @@ def cmdtext_stream(chk, root, results, name):
             chk.violation("okane %s: the text model and the binary disagree: %s" % (" ".join(argv), what),
                           {"stream": "c13 cmdtext", "command": [OKANE] + argv, "cwd": d, "files": case["files"],
                            "binary": {"status": kv.get("st"), "stdout": dec(kv.get("out", "~")), "stderr": ANSI.sub("", dec(kv.get("err", "~")))},
-                           "model": show_model_text(dec(mres.split(":", 2)[-1])) if ":" in mres else mres,
+                           "model": [show_model_text(dec(a.split("^")[0].rsplit(":", 1)[-1])) if ":" in a else a for a in mres.split("|")],
                            "model_kind": kind, "what": what, "features": case.get("features"),
                            "expected": "stdout / error title / exit status of the binary = Okane.CmdText.run on the parsed tree "
                                        "(byte for byte outside numerals, numerals by exact value)"},
@@ -1344,6 +1593,20 @@ def do_replay(chk, root, path):
     rp = json.load(open(path, encoding="utf-8"))
     argv = rp["command"][1:]
     case = {"id": "R", "kind": "replay", "files": rp["files"], "cmds": [argv], "features": [], "nontrivial": True}
+    if rp.get("stream") == "c13 cmdtext":
+        # a recorded disagreement between the text model and the binary: run the command again (the N processes must
+        # agree with each other) and compare with the model again
+        case["kind"] = "ledger"
+        res = run_cases(chk, root, [case], 6, shards=1)
+        chk.case(("replay", path))
+        if res[0][2].get("same") == "0":
+            report_difference(chk, root, case, 0, res[0][2], shrink=False)
+            return
+        before = len(chk.violations)
+        cmdtext_stream(chk, root, res, "cmdtext-model-vs-binary")
+        if len(chk.violations) == before:
+            print("replay %s: the text model and the binary agree on the recorded case" % path)
+        return
     res = run_cases(chk, root, [case], 48, shards=1)
     kv = res[0][2]
     chk.case(("replay", path))
@@ -1360,7 +1623,11 @@ def run(chk):
                 "~20 command lines each (format, accounts, balance raw / -X / --historical / --start / --end, register [account], "
                 "primitive eval / flatten / format), and generated import configurations (csv / camt053 / viseca; rewrite rules with "
                 "several fields per element, captures, OR lists, templates) x `import`; every (input, command) is run in N fresh "
-                "processes and must be byte-identical; a case is non-trivial when a multi-commodity amount, an implied exchange, a "
+                "processes and must be byte-identical; for the ledger inputs the covered commands (accounts, balance with and "
+                "without ranges / -X / --historical / --price-db, register, primitive eval) are additionally compared with the "
+                "text model run on the tree the real parser produced (postings through account and commodity aliases, every "
+                "kind of book-keeping / query error, hand-written alias / price-db-only-commodity / eval-error cases); "
+                "a case is non-trivial when a multi-commodity amount, an implied exchange, a "
                 "price tie, a missing rate, an amount-carrying error or a multi-field rule element is involved; distinct = "
                 "distinct (input, command) pairs")
     chk.assumptions = [
@@ -1369,6 +1636,10 @@ def run(chk):
         "`--now` is always passed: without it `balance -X` reads the wall clock, which is then an input of the command",
         "the iteration-site probe (tools/hash_iter_sites.py) is a regex heuristic over the Rust sources",
         "hash order is modelled as list order of association lists; Rust's HashMap never yields an order outside the permutations of its entries",
+        "command text: numerals are compared by value (exact; within 10^-18 relative or on a rounding boundary for converted amounts), not by "
+        "scale / sign of zero; below the title line of a book-keeping diagnostic nothing is compared; the entry index of an error is compared "
+        "with the entry `hx process` locates from the diagnostic's line number; the pop order of BinaryHeap is simulated (Drv/C09), other pop "
+        "orders are accepted and counted",
     ]
     if not standard_prologue(chk, THEOREMS):
         return
@@ -1389,6 +1660,7 @@ def run(chk):
     # 1. corpus first (witnesses of fixed findings must be deterministic now)
     corpus = load_corpus()
     res = run_cases(chk, root, corpus, max(n, 24)) if corpus else []
+    res += run_cases(chk, root, builtin_cases(), n)
     chk.streams["corpus"] = len(res)
     jobs = process_results(chk, root, res, known_seen, shrink=False)
     cmdtext_stream(chk, root, res, "cmdtext-model-vs-binary")
